@@ -24,7 +24,7 @@ ALPHA = [
     c07.fspec("ML", 1, "A"), c07.fspec("ML", 4599, "TRAIL", pat="00"), c07.fspec("ML", 2294, "EXACT", pat="ff"),
     c07.fspec("ML", 0, "EMPTYML"), c07.fspec("BAS", 300, "BASIC", "BAS", pat="m00.p0"), c07.fspec("ASC", 2304, "ASCII", "TXT", pat="55"),
     c07.fspec("ML", 65535, "HUGE", pat="dir"), c07.fspec("ML", 700, "lower", "bin", pat="tape"),
-    c07.fspec("MLA", 40, "MLASCII", pat="ramp7"), c07.fspec("DATB", 700, "DATABIN", "DAT", pat="ramp"),
+    c07.fspec("MLA", 14, "MLASCII", pat="ramp7", load=0xFFF2, exec_=0xFFFE), c07.fspec("DATB", 700, "DATABIN", "DAT", pat="ramp"),
 ]
 SAVE = "save"
 
